@@ -21,7 +21,11 @@ OPS = {
 
 # known-finding key -> harnesses that have a masked twin
 KF_STALE = "rc:merge-queue-entry-outlives-box"
-MASKED = {"rc_step_drop": KF_STALE, "rc_step_try_unwrap": KF_STALE}
+KF_OWNER_CELL = "rc:owner-cell-cleared-after-merge-published"
+MASKED = {"rc_step_drop": KF_STALE, "rc_step_try_unwrap": KF_STALE, "rc_il_drop": KF_OWNER_CELL}
+TWIN = {"rc_step_drop": "rc_step_drop__kf_stale_queue", "rc_step_try_unwrap": "rc_step_try_unwrap__kf_stale_queue",
+        "rc_il_drop": "rc_il_drop__kf_owner_cell"}
+IL_BASE = {"rc_il_drop": "drop", "rc_il_clone": "clone", "rc_il_get_mut": "get_mut"}
 
 SYMBOLIC = ("merged:bool, queued:bool, owner_cell_none:bool, biased:u32, shared:i32 (30-bit field), "
             "holders[3]:u32 (live handles per logical thread), merge_queue_entry:bool, acting_thread in {1(owner),2,3}")
@@ -36,7 +40,7 @@ def decode_cex(log_text, assertion_desc=None):
     """Parse Kani's concrete-playback print for the failing assertion -> list of ints."""
     blocks = re.split(r"Concrete playback unit test for", log_text)
     for b in blocks[1:]:
-        m = re.search(r"Check for `(?:assertion|cover)`: \"+(?:CEX:)?(.*?)\"+\n", b)
+        m = re.search(r"Check for `\w+`: \"+(?:CEX:)?(.*?)\"+\n", b)
         if not m or ("`cover`" in m.group(0) and "CEX:" not in m.group(0)):
             continue
         if assertion_desc and assertion_desc not in m.group(1):
@@ -58,10 +62,14 @@ def target_from_cex(harness, vals):
     h = [vals[5][0], vals[6][0], vals[7][0]]
     iq = vals[8][0]
     t = vals[9][0] if len(vals) > 9 else 1
-    op = OPS[harness]
     pre = {"merged": m, "queued": q, "owner_cell_none": n, "biased": b, "shared": s, "holders": h, "queue_entry": iq}
-    tgt = "%d,%d,%d,%d,%d,%d,%d,%d,%d;%s@%d" % (m, q, n, b, s, h[0], h[1], h[2], iq, op, t)
-    return pre, tgt, "%s@%d" % (op, t)
+    if harness in IL_BASE:
+        u, fa, fo, after = vals[10][0], vals[11][0], vals[12][0], vals[13][0]
+        opstr = "%s@%d[%d%s:%s@%d]" % (IL_BASE[harness], t, fa, "a" if after else "b", ["clone", "drop", "get_mut"][fo], u)
+    else:
+        opstr = "%s@%d" % (OPS[harness], t)
+    tgt = "%d,%d,%d,%d,%d,%d,%d,%d,%d;%s" % (m, q, n, b, s, h[0], h[1], h[2], iq, opstr)
+    return pre, tgt, opstr
 
 
 class Native:
@@ -76,7 +84,7 @@ class Native:
         if self.bin:
             return self.bin
         t0 = time.time()
-        env = dict(os.environ, RUSTFLAGS="--cfg verif_native", CARGO_NET_OFFLINE="true")
+        env = dict(os.environ, RUSTFLAGS="--cfg verif_native --cfg steel_verif", CARGO_NET_OFFLINE="true")
         tdir = os.path.join(self.root, "tnative")
         out = subprocess.run(["cargo", "test", "--offline", "-p", "steel-rc", "--lib", "--no-run",
                               "--target-dir", tdir, "--message-format=json"],
@@ -148,6 +156,8 @@ def replay_file(pid, key, payload):
 def classify(harness, desc, pre, expected="", observed=""):
     if "merge-queue entry" in desc and ("queue entry outlived" in expected or "explicit_merge" in observed):
         return KF_STALE
+    if harness.startswith("rc_il_") and "Invalid write" in observed and ("decrement" in observed or "merge" in observed):
+        return KF_OWNER_CELL
     return "rc:%s:%s" % (harness, re.sub(r"[^a-z0-9]+", "-", desc.lower()).strip("-")[:60])
 
 
@@ -159,14 +169,16 @@ def handle_failure(run, r, wsdir, root, native, logdir, tdir):
     # (counters <= 3) so that the native search can reach the pre-state, else the harness itself
     base = h.split("__kf_")[0]
     vals = None
+    if base in IL_BASE:
+        desc_match = None  # any failed check: pointer checks have no message of ours
     for cand in ([h + "__small"] if base in OPS else []) + [h]:
         r2 = kani.run(wsdir, "steel-rc", cand, logdir + "/cex", tdir, 600,
                       extra=["-Z", "concrete-playback", "--concrete-playback=print"], modpath="verif_rc")
-        vals = decode_cex(open(r2["log"], errors="replace").read(), desc)
+        vals = decode_cex(open(r2["log"], errors="replace").read(), None if base in IL_BASE else desc)
         if vals:
             break
     h = base
-    if not vals or h not in OPS:
+    if not vals or (h not in OPS and h not in IL_BASE):
         return "inconclusive", "counterexample values could not be extracted for %s (%s)" % (h, desc), None
     pre, tgt, op = target_from_cex(h, vals)
     hist, expected, why = native.search(tgt, ignore_stale=run.is_known(KF_STALE) and "merge-queue entry" not in desc)
@@ -206,7 +218,7 @@ def check(pid, tier, seed, harness_list, thorough_extra, prop_note):
     for h in hs:
         plan.append(h)
         if h in MASKED and run.is_known(MASKED[h]):
-            plan.append(h + "__kf_stale_queue")
+            plan.append(TWIN[h])
     timeout = 300 if tier == "quick" else 1800
     res = kani.run_many(wsdir, "steel-rc", plan, logdir, os.path.join(root, "tk"), timeout, slots=min(6, len(plan)), modpath="verif_rc")
     for h in plan:
